@@ -347,7 +347,21 @@ def p_data_value_width(lines, desc, obs):
     return bool(desc.get("single")) and any(v < 0 for v in vals)
 
 
-PREDICATES.update({"symbol_in_data": p_symbol_in_data, "data_value_width": p_data_value_width})
+def p_symbol_in_data_list(lines, desc, obs):
+    """an FCB/FDB LIST (two or more elements) one of whose elements is a symbol or an expression"""
+    st = statements(lines)
+    k = desc.get("stmt")
+    if isinstance(k, int) and 0 <= k < len(st) and st[k][1] in ("FCB", "FDB"):
+        st = [st[k]]
+    for lb, mn, op in st:
+        if mn in ("FCB", "FDB") and "," in op:
+            if any(e != "" and literal(e) is None for e in op.split(",")):
+                return True
+    return False
+
+
+PREDICATES.update({"symbol_in_data": p_symbol_in_data, "data_value_width": p_data_value_width,
+                   "symbol_in_data_list": p_symbol_in_data_list})
 
 
 # ---- C04: the expression positions / operand kinds on which the unchanged tree fails (committed table) ----
